@@ -863,9 +863,11 @@ def eml_contract():
     def inv(lc):
         """One invariant for every loop of the body, by what the loop walks: over mail.attachments the list built so far is the
         specified attachments prefix; over an address list of the mail it is the specified recipients prefix; other loops: True."""
-        mail = M.MAILOF(M.bytes_term(lc.entry.lookup("payload")))
         t = walked_length(lc.seq)
         what = t.decl().name() if t is not None and z3.is_app(t) else ""
+        # the mail is the one whose sequence is walked (name-free: the loop may sit in a helper that never sees `payload`); the
+        # postconditions compare with the parse of `payload`, so walking another mail's entries cannot verify
+        mail = t.arg(0) if what in ("mail_attachments_n", "mail_addresses_n") else None
         i = lc.i
         if what == "mail_attachments_n":
             n, el = built_list(lc, None, ("obj", "EmailAttachment"))
